@@ -14,7 +14,7 @@ TIERS = {
     "quick": {"runs": 3000, "max_wall": 240, "minimise_s": 25, "chunk": 50},
     "thorough": {"runs": 100000, "max_wall": 3000, "minimise_s": 60, "chunk": 200},
 }
-FAULT_KINDS = ["save tick position relative to the last change", "clean stop/restart", "stop() at the instant a scheduled save starts (pre-emptive schedule)"]
+FAULT_KINDS = ["save tick position relative to the last change", "clean stop/restart", "stop() at the instant a scheduled save starts (pre-emptive schedule)", "persistence directory not writable during one scheduled save"]
 REAL, STUBS, ASSUMPTIONS = netcheck.REAL, netcheck.STUBS, netcheck.ASSUMPTIONS
 REQUIRED_PROBES = ["restarts_with_persistence", "stop_after_unsaved_change", "saves_completed"]
 WEIGHTS = {"advance": 14, "restart": 3, "present_node": 8, "present_child": 9, "value": 12, "battery": 6, "sketch": 8, "heartbeat": 6,
@@ -34,6 +34,8 @@ def gen(rng, tier, index):
     if tail_rng < 0.5:
         ops.append(["advance", rng.choice([9.9, 10.0, 10.2, 20.1])])
     ops.extend(netgen.make_ops(rng, cfg["version"], 1, dict(WEIGHTS, advance=0, restart=0, garbage=0, invalid_frame=0), nodes=(1, 1))[-1:])
+    if cfg["persistence"] and rng.random() < 0.2:
+        ops.append(["readonly_tick"])
     if rng.random() < 0.3:
         # stop() racing with a scheduled save that has something to write
         cfg["sched"] = {"policy": "rw", "seed": rng.getrandbits(32), "p": rng.choice([0.02, 0.08, 0.2])}
